@@ -1,15 +1,515 @@
-"""Interpretive judges for EvaluationMapper handlers (C02) whose meaning is a
-matter of *which operands are evaluated* as much as of the value: the logical
-operators.  The handler is interpreted (pv/absint.py) on a node whose operands
-evaluate to preset values; result and the sequence of evaluated operands are
-compared with Python's own `or` / `and` chain."""
+"""Interpretive judge for the evaluator's handlers (C02).
+
+A handler `map_<node>(self, expr)` of the evaluation mapper is interpreted
+(pv/absint.py) on an abstract node whose children are opaque tokens; `self.rec`
+answers each child with a *term leaf* -- a value that records every Python
+operator applied to it -- and notes the order in which children were asked
+for.  What the handler returns is compared, in a normal form, with the Python
+construct the node denotes (table DENOT of pv/oracles.py):
+
+* binary / unary operators: exactly that operator on the children's values,
+  left operand first;
+* n-ary +, *, |, ^, &: the children's values joined by that operator in the
+  order of the children (nesting and a neutral start value do not matter),
+  for 0..3 (bitwise: 1..3) children, every child evaluated once;
+* min / max: that function over the children's values in order;
+* or / and / not / conditional: for every assignment of truth values to the
+  children, the very value Python's construct yields, and only the children
+  Python would have evaluated, in order;
+* calls: the function's value applied to the arguments' values in order and
+  the keyword arguments' values under their names.
+
+However the handler is written -- generator or loop, reduce or fold, helper
+methods, handlers made by a factory in the class body -- it passes iff it
+computes that.  Nothing of the repository is executed.
+"""
 from __future__ import annotations
 
 import ast
 import itertools
 
 from . import AnalysisError
-from .absint import Interp, Opaque, Raised, StepBound
+from .absint import (Closure, Interp, Obj, Opaque, Raised, StepBound,
+                     module_env)
+from .model import ClassInfo
+
+_OPS = {ast.Add: "+", ast.Sub: "-", ast.Mult: "*", ast.Div: "/",
+        ast.FloorDiv: "//", ast.Mod: "%", ast.Pow: "**", ast.LShift: "<<",
+        ast.RShift: ">>", ast.BitOr: "|", ast.BitXor: "^", ast.BitAnd: "&",
+        ast.MatMult: "@"}
+_NEUTRAL = {"+": 0, "*": 1}
+_OPERATOR_MODULE = {
+    "add": "+", "sub": "-", "mul": "*", "truediv": "/", "floordiv": "//",
+    "mod": "%", "pow": "**", "lshift": "<<", "rshift": ">>", "or_": "|",
+    "xor": "^", "and_": "&", "__or__": "|", "__xor__": "^", "__and__": "&",
+    "__add__": "+", "__mul__": "*", "ior": "|", "ixor": "^", "iand": "&",
+    "iadd": "+", "imul": "*",
+    "eq": "==", "ne": "!=", "lt": "<", "le": "<=", "gt": ">", "ge": ">=",
+}
+_CMP = ("==", "!=", "<", "<=", ">", ">=")
+
+
+class Tm:
+    """a term: an operator applied to terms / numbers, or a leaf"""
+
+    def __init__(self, op, *args, truth=None):
+        self.op, self.args, self.truth = op, args, truth
+
+    def __repr__(self):
+        if self.op == "leaf":
+            return self.args[0]
+        if self.op == "call":
+            return f"{self.args[0]!r}(...)"
+        return f"{self.op}({', '.join(map(repr, self.args))})"
+
+    def __call__(self, *a, **k):
+        return Tm("call", self, tuple(a), tuple(sorted(k.items())))
+
+
+def nf(v):
+    """normal form: n-ary flattening of + * | ^ & min max, neutral start
+    values dropped; everything else structural"""
+    if not isinstance(v, Tm):
+        return ("const", repr(v), type(v).__name__)
+    if v.op == "leaf":
+        return ("leaf", v.args[0])
+    if v.op == "call":
+        return ("call", nf(v.args[0]), tuple(nf(x) for x in v.args[1]),
+                tuple((k, nf(x)) for k, x in v.args[2]))
+    if v.op in ("+", "*", "|", "^", "&", "min", "max"):
+        items = []
+        for a in v.args:
+            x = nf(a)
+            if x[0] == v.op:
+                items += list(x[1])
+            elif v.op in _NEUTRAL and x == nf(_NEUTRAL[v.op]):
+                continue
+            else:
+                items.append(x)
+        if not items and v.op in _NEUTRAL:
+            return nf(_NEUTRAL[v.op])
+        if len(items) == 1:
+            return items[0]
+        return (v.op, tuple(items))
+    return (v.op,) + tuple(nf(a) for a in v.args)
+
+
+def _apply(sym, a, b):
+    """the operator on two values: a term if either is one, Python's own
+    result for two plain numbers"""
+    if isinstance(a, Tm) or isinstance(b, Tm):
+        return Tm(sym, a, b)
+    import operator as _o
+    if sym in _CMP and isinstance(a, (int, float)) and isinstance(
+            b, (int, float)):
+        return {"==": _o.eq, "!=": _o.ne, "<": _o.lt, "<=": _o.le,
+                ">": _o.gt, ">=": _o.ge}[sym](a, b)
+    num = (int, float, complex)
+    if isinstance(a, num) and isinstance(b, num):
+        f = {"+": _o.add, "-": _o.sub, "*": _o.mul, "/": _o.truediv,
+             "//": _o.floordiv, "%": _o.mod, "**": _o.pow, "<<": _o.lshift,
+             ">>": _o.rshift, "|": _o.or_, "^": _o.xor, "&": _o.and_}[sym]
+        try:
+            return f(a, b)
+        except (ZeroDivisionError, TypeError, ValueError, OverflowError):
+            raise Raised(None, "ArithmeticError")
+    raise AnalysisError(f"operator {sym} on {a!r}, {b!r}")
+
+
+class _EvalInterp(Interp):
+    def _binop(self, node, op, a, b):
+        num = (int, float, complex)
+        if isinstance(a, Tm) or isinstance(b, Tm) or (
+                isinstance(a, num) and isinstance(b, num)):
+            sym = _OPS.get(type(op))
+            if sym is None:
+                raise AnalysisError(f"operator {type(op).__name__}")
+            return _apply(sym, a, b)
+        return Interp._binop(self, node, op, a, b)
+
+    def eval(self, e, env):
+        if isinstance(e, ast.UnaryOp) and not isinstance(e.op, ast.Not):
+            v = self.eval(e.operand, env)
+            if isinstance(v, Tm):
+                return Tm({ast.Invert: "~", ast.USub: "neg",
+                           ast.UAdd: "pos"}[type(e.op)], v)
+            if isinstance(e.op, ast.Invert) and isinstance(v, int):
+                return ~v
+            # (fall through with the operand evaluated once more is harmless
+            # only for pure operands; constants and names are)
+            if isinstance(e.operand, (ast.Constant, ast.Name)):
+                return Interp.eval(self, e, env)
+            raise AnalysisError(f"unary {type(e.op).__name__} on {v!r}")
+        return Interp.eval(self, e, env)
+
+    def truth(self, node, v):
+        if isinstance(v, Tm):
+            if v.truth is None:
+                raise AnalysisError("branch on a computed value: "
+                                    + ast.unparse(node))
+            return v.truth
+        return Interp.truth(self, node, v)
+
+    def compare(self, node, op, a, b):
+        if isinstance(a, Tm) or isinstance(b, Tm):
+            if isinstance(op, (ast.Is, ast.IsNot)):
+                return (a is b) == isinstance(op, ast.Is)
+            raise AnalysisError("comparison of computed values: "
+                                + ast.unparse(node))
+        return Interp.compare(self, node, op, a, b)
+
+
+def _fold(sym, items, start=None):
+    items = list(items)
+    if start is None:
+        if not items:
+            raise Raised(None, "TypeError")
+        acc, rest = items[0], items[1:]
+    else:
+        acc, rest = start, items
+    for x in rest:
+        acc = _apply(sym, acc, x)
+    return acc
+
+
+def eval_module_env(tree):
+    """module_env plus the module-level tables that are built from the
+    operator module (dict(zip(symbols, (op.eq, ...))))"""
+    glob = module_env(tree, {})
+    for nm in ("op", "operator"):
+        glob[nm] = Opaque("module operator")
+    for st in tree.body:
+        if isinstance(st, ast.Assign) and len(st.targets) == 1 and isinstance(
+                st.targets[0], ast.Name) and st.targets[0].id not in glob:
+            try:
+                glob[st.targets[0].id] = _EvalInterp(
+                    globals_=glob, attrs=_module_attrs,
+                    max_steps=3000).eval(st.value, dict(glob))
+            except (AnalysisError, Raised, StepBound):
+                pass
+    return glob
+
+
+def handler_value(model, cls: ClassInfo, name, glob):
+    """the function behind cls.<name>: a def, an alias of one, or what a
+    class-body expression (a factory call) evaluates to.  -> Closure | None"""
+    for k in model.mro(cls):
+        if not isinstance(k, ClassInfo) or name not in k.members:
+            continue
+        mem = k.members[name]
+        if mem.kind == "func":
+            return Closure(mem.node, glob), k, mem
+        v = mem.node.value if mem.kind == "ann" else mem.node
+        if isinstance(v, ast.Name) and v.id in k.members and \
+                k.members[v.id].kind == "func":
+            return Closure(k.members[v.id].node, glob), k, mem
+        if isinstance(v, ast.expr):
+            env = dict(glob)
+            for nm2, m2 in k.members.items():
+                if m2.kind == "func":
+                    env.setdefault(nm2, Closure(m2.node, glob))
+            it = _EvalInterp(globals_=glob, attrs=_module_attrs, max_steps=5000)
+            val = it.eval(v, env)
+            if isinstance(val, Closure):
+                return val, k, mem
+            raise AnalysisError(f"{k.name}.{name} is bound to {val!r}")
+        raise AnalysisError(f"{k.name}.{name}: not a function")
+    return None, None, None
+
+
+def _module_attrs(it, node, base, attr):
+    if isinstance(base, Opaque) and "operator" in base.what and \
+            attr in _OPERATOR_MODULE:
+        sym = _OPERATOR_MODULE[attr]
+        return lambda a, b: _apply(sym, a, b)
+    if isinstance(base, Opaque) and "operator" in base.what and \
+            attr in ("invert", "inv", "__invert__", "neg", "pos"):
+        sym = {"neg": "neg", "pos": "pos"}.get(attr, "~")
+
+        def un(a, sym=sym):
+            if isinstance(a, Tm):
+                return Tm(sym, a)
+            if isinstance(a, (int, float)):
+                return {"~": lambda v: ~v, "neg": lambda v: -v,
+                        "pos": lambda v: +v}[sym](a)
+            raise AnalysisError(f"operator.{attr} on {a!r}")
+        return un
+    if isinstance(base, Opaque) and "operator" in base.what and \
+            attr in ("not_", "truth"):
+        def tr(a, neg=(attr == "not_")):
+            if isinstance(a, Tm):
+                if a.truth is None:
+                    raise AnalysisError("truth of a computed value")
+                return (not a.truth) if neg else a.truth
+            return (not a) if neg else bool(a)
+        return tr
+    return Opaque(ast.unparse(node))
+
+
+class Case:
+    def __init__(self, label, fields, order, want, evaluated):
+        self.label, self.fields, self.order = label, fields, order
+        self.want, self.evaluated = want, evaluated
+
+
+def _leaf(name, truth=None):
+    return Tm("leaf", name, truth=truth)
+
+
+class Child:
+    def __init__(self, name, truth=None, value=None):
+        self.name = name
+        self.value = _leaf(f"v[{name}]", truth) if value is None else value
+
+    def __repr__(self):
+        return f"<child {self.name}>"
+
+
+def cases_for(kind, sym, fields):
+    """-> [Case]"""
+    out = []
+    import operator as _o
+    pyop = {"+": _o.add, "*": _o.mul, "/": _o.truediv, "//": _o.floordiv,
+            "%": _o.mod, "**": _o.pow, "<<": _o.lshift, ">>": _o.rshift,
+            "|": _o.or_, "^": _o.xor, "&": _o.and_, "min": min, "max": max}
+    if kind == "binary":
+        a, b = Child(fields[0]), Child(fields[1])
+        out.append(Case("", {fields[0]: a, fields[1]: b}, [a, b],
+                        Tm(sym, a.value, b.value), [a, b]))
+        # operands that are numbers of different types: a handler that treats
+        # one type specially (a bool, a float) does not compute the operator
+        for va, vb in ((True, 3), (3, True), (7, 2)):
+            a, b = Child(fields[0], value=va), Child(fields[1], value=vb)
+            out.append(Case(f"operands {va!r}, {vb!r}",
+                            {fields[0]: a, fields[1]: b}, [a, b],
+                            pyop[sym](va, vb), [a, b]))
+    elif kind == "unary" and sym == "~":
+        a = Child(fields[0])
+        out.append(Case("", {fields[0]: a}, [a], Tm("~", a.value), [a]))
+        for va in (True, False, 5):
+            a = Child(fields[0], value=va)
+            out.append(Case(f"operand {va!r}", {fields[0]: a}, [a],
+                            -va - 1, [a]))
+    elif kind == "unary" and sym == "not":
+        for t in (True, False):
+            a = Child(fields[0], t)
+            out.append(Case(f"operand {'true' if t else 'false'}",
+                            {fields[0]: a}, [a], not t, [a]))
+    elif kind in ("nary", "nary-call"):
+        lo = 0 if sym in _NEUTRAL else 1
+        for n in range(lo, 4):
+            kids = [Child(f"{fields}[{i}]") for i in range(n)]
+            if n == 0:
+                want = _NEUTRAL[sym]
+            else:
+                want = Tm(sym, *[k.value for k in kids])
+            out.append(Case(f"{n} operands", {fields: tuple(kids)}, kids, want,
+                            kids))
+        for vals in ((True, 3), (3, True, 2), (False, True)):
+            kids = [Child(f"{fields}[{i}]", value=v) for i, v in enumerate(vals)]
+            want = vals[0]
+            for v in vals[1:]:
+                want = pyop[sym](want, v)
+            out.append(Case(f"operands {list(vals)!r}", {fields: tuple(kids)},
+                            kids, want, kids))
+    elif kind == "nary-lazy":
+        for n in range(0, 4):
+            for truths in itertools.product((True, False), repeat=n):
+                kids = [Child(f"{fields}[{i}]", t) for i, t in enumerate(truths)]
+                if n == 0:
+                    want, ev = (sym == "and"), []
+                else:
+                    stop = next((i for i, t in enumerate(truths)
+                                 if t == (sym == "or")), n - 1)
+                    want, ev = kids[stop].value, kids[:stop + 1]
+                out.append(Case(f"operands {list(truths)}",
+                                {fields: tuple(kids)}, kids, want, ev))
+    elif kind == "ifexp":
+        for t in (True, False):
+            c, th, el = Child(fields[0], t), Child(fields[1]), Child(fields[2])
+            out.append(Case(f"condition {'true' if t else 'false'}",
+                            {fields[0]: c, fields[1]: th, fields[2]: el},
+                            [c, th, el], (th if t else el).value,
+                            [c, th if t else el]))
+    elif kind == "compare":
+        for o_ in _CMP:
+            a, b = Child(fields[0]), Child(fields[1])
+            out.append(Case(f"operator {o_}", {fields[0]: a, fields[1]: b,
+                                               "operator": o_}, [a, b],
+                            Tm(o_, a.value, b.value), [a, b]))
+    elif kind == "call":
+        f, p1, p2 = Child("function"), Child("parameters[0]"), \
+            Child("parameters[1]")
+        flds = {"function": f, "parameters": (p1, p2)}
+        kw = ()
+        ev = [f, p1, p2]
+        if "kw_parameters" in fields:
+            k1, k2 = Child("kw_parameters[b]"), Child("kw_parameters[a]")
+            flds["kw_parameters"] = {"b": k1, "a": k2}
+            kw = (("a", k2.value), ("b", k1.value))
+            ev += [k1, k2]
+        out.append(Case("", flds, ev, Tm("call", f.value,
+                                         (p1.value, p2.value), kw), ev))
+    else:
+        raise AnalysisError(f"evaluator judge: kind {kind}")
+    return out
+
+
+def judge(model, ev: ClassInfo, node_name, handler_name, kind, sym, fields,
+          cases=None):
+    """-> (witnesses, n_cases, where) ; AnalysisError if not interpretable"""
+    glob = eval_module_env(ev.module.tree)
+    f, owner, mem = handler_value(model, ev, handler_name, glob)
+    if f is None:
+        raise AnalysisError(f"no handler {handler_name}")
+    order_matters = kind in ("binary", "nary", "nary-call", "nary-lazy",
+                             "ifexp", "compare")
+    extra_fields = {}
+    if kind == "compare":
+        extra_fields = _class_tables(model, node_name)
+
+    def resolve(cls, nm):
+        if cls == "__evaluator__" and nm not in ("rec", "__call__",
+                                                 "rec_fallback"):
+            m_ = model.lookup(ev, nm)
+            if m_ is not None and m_.kind == "func":
+                return ("func", m_.node)
+        return None
+    wit = []
+    cases = cases if cases is not None else cases_for(kind, sym, fields)
+    for c in cases:
+        asked = []
+
+        def rec(*a, _asked=asked, **k):
+            if not a or not isinstance(a[0], Child) or len(a) > 1 or k:
+                raise AnalysisError("rec of something that is not a child "
+                                    "(or with extra arguments)")
+            _asked.append(a[0])
+            return a[0].value
+
+        def hook(it, nd, a, k):
+            return rec(*a, **k)
+
+        def sum_(it, nd, a, k):
+            return _fold("+", list(a[0]), a[1] if len(a) > 1 else
+                         k.get("start", 0))
+
+        def prod_(it, nd, a, k):
+            return _fold("*", list(a[0]), a[1] if len(a) > 1 else
+                         k.get("start", 1))
+
+        def reduce_(it, nd, a, k):
+            fn_ = a[0]
+            items = list(a[1])
+            acc_given = len(a) > 2
+            if not items and not acc_given:
+                raise Raised(nd, "TypeError")
+            acc = a[2] if acc_given else items[0]
+            for x in (items if acc_given else items[1:]):
+                acc = it.apply(fn_, [acc, x]) if isinstance(
+                    fn_, Closure) else fn_(acc, x)
+            return acc
+
+        def minmax(which):
+            def f_(it, nd, a, k):
+                if k:
+                    raise AnalysisError(f"{which}(..., key=/default=)")
+                items = list(a[0]) if len(a) == 1 else list(a)
+                if not items:
+                    raise Raised(nd, "ValueError")
+                if not any(isinstance(x, Tm) for x in items):
+                    return (max if which == "max" else min)(items)
+                return items[0] if len(items) == 1 else Tm(which, *items)
+            return f_
+        # the same functions as values (handed to a helper: pick = min)
+        glob_c = dict(glob)
+        for nm_, hk_ in (("min", minmax("min")), ("max", minmax("max")),
+                         ("sum", sum_)):
+            glob_c[nm_] = (lambda *a_, _h=hk_, **k_: _h(None, None, list(a_),
+                                                        k_))
+        me = Obj("__evaluator__", {"rec": rec, "context": {},
+                                   "common_subexp_cache": {}})
+        it = _EvalInterp(calls={
+            "self.rec": hook, "self": hook, "sum": sum_, "product": prod_,
+            "pytools.product": prod_, "math.prod": prod_, "prod": prod_,
+            "reduce": reduce_, "functools.reduce": reduce_,
+            "max": minmax("max"), "min": minmax("min"),
+            "bool": lambda it_, nd, a, k: it_.truth(nd, a[0])},
+            attrs=_module_attrs, resolve=resolve, globals_=glob_c,
+            max_steps=20000)
+        # handlers made in the class body, as bound values of the mapper
+        for k_ in model.mro(ev):
+            if not isinstance(k_, ClassInfo):
+                continue
+            for nm_, m_ in k_.members.items():
+                if m_.kind != "func" and nm_.startswith("map_") and \
+                        nm_ not in me.fields:
+                    try:
+                        cl_, _o, _m = handler_value(model, k_, nm_, glob)
+                    except AnalysisError:
+                        continue
+                    if cl_ is not None:
+                        me.fields[nm_] = (
+                            lambda *a_, _c=cl_, **k2: it.apply(
+                                _c, [me] + list(a_), k2))
+        expr = Obj(node_name, dict(extra_fields, **c.fields))
+        label = f"{node_name}" + (f" ({c.label})" if c.label else "")
+        try:
+            got = it.apply(f, [me, expr])
+        except Raised as r:
+            wit.append(f"{label}: raises at line "
+                       f"{getattr(r.node, 'lineno', '?')}")
+            continue
+        except StepBound:
+            wit.append(f"{label}: does not terminate")
+            continue
+        if isinstance(c.want, Tm) and c.want.op == "leaf":
+            ok = got is c.want
+        elif isinstance(c.want, bool):
+            ok = got is c.want
+        elif not isinstance(c.want, Tm):
+            ok = type(got) is type(c.want) and got == c.want
+        else:
+            ok = nf(got) == nf(c.want)
+        if not ok:
+            wit.append(f"{label}: gives {got!r}, {_py(kind, sym)} gives "
+                       f"{c.want!r}")
+            continue
+        names = [x.name for x in asked]
+        wantn = [x.name for x in c.evaluated]
+        if sorted(names) != sorted(wantn):
+            wit.append(f"{label}: evaluates {names}, {_py(kind, sym)} "
+                       f"evaluates {wantn}")
+        elif order_matters and names != wantn:
+            wit.append(f"{label}: evaluates the operands in the order {names}")
+    return wit, len(cases), (owner, mem)
+
+
+def _class_tables(model, node_name):
+    """class-level dict literals of the node class (operator_to_name, ...)"""
+    out = {}
+    n = model.nodes.get(node_name)
+    for k in model.mro(n.cls):
+        if not isinstance(k, ClassInfo):
+            continue
+        for nm, mem in k.members.items():
+            v = mem.node.value if mem.kind == "ann" else mem.node
+            if mem.kind != "func" and isinstance(v, ast.Dict) and nm not in out:
+                try:
+                    out[nm] = ast.literal_eval(v)
+                except (ValueError, SyntaxError):
+                    pass
+    return out
+
+
+def _py(kind, sym):
+    return f"Python's '{sym}'" if sym else {
+        "ifexp": "Python's conditional expression",
+        "call": "the call"}.get(kind, "Python")
+
+
+# ---------------------------------------------------------------------------
+# the logical operators on concrete preset values (the older, narrower judge)
 
 VALUES = [0, 2, "", "s", False, True]
 
@@ -81,3 +581,151 @@ def judge_logical(fn, sym, class_node, module_tree=None):
                 wit.append(f"{chain}: evaluates operands {log}, result {got!r}; "
                            f"Python evaluates {plog}, result {want!r}")
     return wit, n
+
+
+# ---------------------------------------------------------------------------
+# object arrays
+
+from .absint import Native  # noqa: E402
+
+
+class _Arr(Native):
+    """a 2 x 2 object array: entries by index tuple"""
+
+    def __init__(self, shape, entries=None):
+        self.shape = tuple(shape)
+        self.entries = dict(entries or {})
+
+    def indices(self):
+        return list(itertools.product(*[range(k) for k in self.shape]))
+
+    def __len__(self):
+        return self.shape[0] if self.shape else 0
+
+    def __getitem__(self, i):
+        if isinstance(i, tuple) and len(i) == len(self.shape):
+            return self.entries[i]
+        raise AnalysisError("array indexed with other than a full index")
+
+    def __setitem__(self, i, v):
+        if isinstance(i, tuple) and len(i) == len(self.shape):
+            self.entries[i] = v
+        else:
+            raise AnalysisError("array assigned with other than a full index")
+
+
+def judge_array(model, ev: ClassInfo, handler_name="map_numpy_array"):
+    """the array handler interpreted on a 2 x 2 object array with numpy's
+    empty / empty_like / ndindex / ndenumerate modelled: the result has the
+    operand's shape and holds, at every index, the value of the entry there;
+    every entry is evaluated once.  -> witnesses"""
+    glob = module_env(ev.module.tree, {})
+    mem = model.lookup(ev, handler_name)
+    if mem is None or mem.kind != "func":
+        raise AnalysisError(f"{handler_name} not found")
+    kids = {i: Child(f"entry{list(i)}") for i in
+            itertools.product(range(2), range(2))}
+    arr = _Arr((2, 2), kids)
+    asked = []
+
+    def rec(*a, **k):
+        if len(a) != 1 or k or not isinstance(a[0], Child):
+            raise AnalysisError("rec of something that is not an entry")
+        asked.append(a[0])
+        return a[0].value
+
+    def np_attr(it, node, base, attr):
+        if isinstance(base, Opaque) and "numpy" in base.what:
+            if attr == "empty":
+                return lambda shape, dtype=None: _Arr(shape)
+            if attr == "empty_like":
+                return lambda a, dtype=None: _Arr(a.shape)
+            if attr == "ndindex":
+                return lambda *shape: _Arr(
+                    shape[0] if len(shape) == 1 and isinstance(
+                        shape[0], tuple) else shape).indices()
+            if attr == "ndenumerate":
+                return lambda a: [(i, a.entries[i]) for i in a.indices()]
+            raise AnalysisError(f"numpy.{attr} is not modelled")
+        if isinstance(base, _Arr) and attr == "shape":
+            return base.shape
+        if isinstance(base, _Arr):
+            raise AnalysisError(f"array attribute {attr} is not modelled")
+        return Opaque(ast.unparse(node))
+    for nm in ("numpy", "np"):
+        glob[nm] = Opaque("module numpy")
+
+    class _I(_EvalInterp):
+        def stmt(self, st, env):
+            if isinstance(st, ast.Import):
+                for al in st.names:
+                    if al.name == "numpy":
+                        env[al.asname or "numpy"] = Opaque("module numpy")
+                        return
+            return _EvalInterp.stmt(self, st, env)
+    me = Obj("__evaluator__", {"rec": rec})
+    it = _I(calls={"self.rec": lambda it_, nd, a, k: rec(*a, **k)},
+            attrs=np_attr, globals_=glob, max_steps=20000)
+    try:
+        got = it.call_function(mem.node, [me, arr], dict(glob))
+    except Raised as r:
+        return [f"raises at line {getattr(r.node, 'lineno', '?')}"]
+    except StepBound:
+        return ["does not terminate"]
+    if not isinstance(got, _Arr) or got is arr or got.shape != arr.shape:
+        return [f"returns {got!r}, not a new array of the operand's shape"]
+    bad = [i for i in arr.indices()
+           if got.entries.get(i) is not kids[i].value]
+    if bad:
+        return [f"entry {list(bad[0])} of the result is "
+                f"{got.entries.get(bad[0])!r}, not the value of the entry there"]
+    if sorted(x.name for x in asked) != sorted(k.name for k in kids.values()):
+        return [f"evaluates {[x.name for x in asked]}: not every entry once"]
+    return []
+
+
+def judge_sequence(model, ev: ClassInfo, handler_name, ctor):
+    """map_tuple / map_list interpreted on sequences of 0..3 entries: a new
+    sequence of that type holding the entries' values in order, each entry
+    evaluated once.  -> witnesses"""
+    glob = eval_module_env(ev.module.tree)
+    f, owner, mem = handler_value(model, ev, handler_name, glob)
+    if f is None:
+        raise AnalysisError(f"no handler {handler_name}")
+
+    def resolve(cls, nm):
+        if cls == "__evaluator__" and nm not in ("rec", "__call__"):
+            m_ = model.lookup(ev, nm)
+            if m_ is not None and m_.kind == "func":
+                return ("func", m_.node)
+        return None
+    wit = []
+    for n in range(0, 4):
+        kids = [Child(f"[{i}]") for i in range(n)]
+        asked = []
+
+        def rec(*a, _asked=asked, **k):
+            if len(a) != 1 or k or not isinstance(a[0], Child):
+                raise AnalysisError("rec of something that is not an entry")
+            _asked.append(a[0])
+            return a[0].value
+        me = Obj("__evaluator__", {"rec": rec})
+        it = _EvalInterp(calls={"self.rec": lambda it_, nd, a, k: rec(*a, **k)},
+                         attrs=_module_attrs, resolve=resolve, globals_=glob,
+                         max_steps=10000)
+        try:
+            got = it.apply(f, [me, ctor(kids)])
+        except Raised as r:
+            wit.append(f"{n} entries: raises at line "
+                       f"{getattr(r.node, 'lineno', '?')}")
+            continue
+        except StepBound:
+            wit.append(f"{n} entries: does not terminate")
+            continue
+        if type(got) is not ctor or len(got) != n or any(
+                g is not k.value for g, k in zip(got, kids)):
+            wit.append(f"{n} entries: gives {got!r}, expected a {ctor.__name__} "
+                       "of the entries' values in order")
+        elif [x.name for x in asked] != [k.name for k in kids]:
+            wit.append(f"{n} entries: evaluates {[x.name for x in asked]}")
+    return wit
